@@ -288,7 +288,7 @@ def main():
         hit = caught.get(cn[0], False)
         run.canaries.append(dict(name=cn[0], detected=hit))
         if not hit:
-            run.inconc('canary not detected: %s' % cn[0])
+            run.canary_miss(cn[0], caught)
     numenv.enable(extra_modules=[(adv, None), (acc, None)])
     run.stubs = sorted(set(numenv.STUBS)) + ['array division by a possibly-zero term: numpy inf/nan semantics modelled by a poison value that may only be discarded by np.where']
     numenv.disable()
